@@ -6,6 +6,10 @@
 //	                allowCasts=false and true
 //	route as / let  generated programs `'<json>'.parse_json() as T` / `let x: T = '<json>'.parse_json()`
 //	                run on the VM (lib vm) and on the tree-walking interpreter (lib tree)
+//	route letget    `let x: ?T = ao.get("k")` (initialiser of static type ?any)
+//	route letx      annotated lets whose initialiser is a composite expression with ?any parts: list and
+//	                object literals, `[]`, `none`, and reads of an any-object wrapped in grouping, block,
+//	                if, match and try expressions (letx.go)
 //	route host-arg  runtime.VM.SpawnSync of `fn id(x: T) -> T { probe(x); x }` with the value as argument
 //	route host-ret  runtime.VM.SpawnSync of `fn mk() -> U { <literal> }` with the host declaring return type T
 //
@@ -36,7 +40,8 @@ func (c12) Info(tier string) fw.Info {
 			"(thorough: plus seed-sampled depth-3 types); each case pushes the typed pool of T, every single-fault near miss of every typed value " +
 			"(wrong kind at every position, missing/extra field, object<->any-object, Some<->plain, shortened list) and one value of every foreign kind " +
 			"across the boundary, with allowCasts false and true (route api: all pairs; program and host routes: a seed-chosen sample that always " +
-			"contains conforming and non-conforming pairs). non-trivial = the case observed at least one admitted and at least one rejected/refused pair; " +
+			"contains conforming and non-conforming pairs); route letx additionally per leaf form {get,arrow,group,block,if,match,try} (quick: one seed-chosen form per backend, two per type; thorough: three per backend, six per type) " +
+			"for every type with an option at the top or directly inside a top-level list/object literal, pushing the pairs that agree with T outside their Some(..) contents, in a local let and (constant initialisers, typed values only; quick: a quarter of the types) in a global let. non-trivial = the case observed at least one admitted and at least one rejected/refused pair; " +
 			"distinct = distinct (route, lib, type, pair list)",
 		Assumptions: []string{
 			"function-typed values are outside the universe (the analyzer forbids casting them)",
@@ -44,6 +49,7 @@ func (c12) Info(tier string) fw.Info {
 			"a rejection names the offending path when its message contains the path of one of the reference offences in the notation of cast.go (`.field`, `[index]`, option steps optional); an offence at the operand itself needs no path; a missing/extra field is named by its path or by its quoted name",
 			"host boundary: a Go panic on the calling goroutine before any callee instruction executed counts as a refusal (DESIGN.md §3 C12)",
 			"program routes only carry JSON-expressible values (none, int, non-integral float, bool, str without escapes, list, object)",
+			"route letx: the statically typed skeleton of the initialiser (list/object literal, non-option fields) agrees with T, the dynamically typed content sits inside Some(..) at option positions; a rejection without path by the interpreter is the same finding as on route let (signature route `let`)",
 		},
 		CaseTimeoutS: 120,
 		BatchSize:    40,
@@ -92,7 +98,7 @@ type pairSpec struct {
 }
 
 type payload struct {
-	Route string  `json:"route"` // api | as | let | host-arg | host-ret
+	Route string  `json:"route"` // api | as | let | letget | letx | host-arg | host-ret
 	Lib   string  `json:"lib"`   // vm | tree
 	T     vu.Type `json:"t"`
 	// Gen mode (Pairs == nil): the worker enumerates valuni.Candidates(T, Width) x modes, leaves out
@@ -102,6 +108,9 @@ type payload struct {
 	Avoid []string `json:"avoid,omitempty"`
 	Max   int      `json:"max,omitempty"`
 	Seed  uint64   `json:"seed,omitempty"`
+	// Route letx: leaf form (letx.go leafForms) and statement kind ("" = let).
+	Form string `json:"form,omitempty"`
+	Stmt string `json:"stmt,omitempty"`
 	// Explicit mode: exactly these pairs.
 	Pairs []pairSpec `json:"pairs,omitempty"`
 }
@@ -127,22 +136,27 @@ func constructs(route, lib string, v vu.Val, t vu.Type, explicit bool) []string 
 				anyAddr = true
 			}
 		}
-		if lib == "vm" && anyIdx && (route == "api" || route == "as" || route == "let" || route == "letget") {
+		if lib == "vm" && anyIdx && (route == "api" || isProgRoute(route)) {
 			out = append(out, cVMPathIdx)
 		}
-		if lib == "tree" && (route == "api" || route == "as" || route == "let" || route == "letget") && anyAddr {
+		if lib == "tree" && (route == "api" || isProgRoute(route)) && anyAddr {
 			out = append(out, cTreePath)
 		}
 	}
 	// the interpreter reports every rejection as a fatal error: any pair it may reject (a
 	// non-conforming one, or one that needs a conversion without an explicit cast) is affected
-	if lib == "tree" && (route == "as" || route == "let" || route == "letget") && (!conf || (!explicit && !vu.HasType(v, t))) {
+	if lib == "tree" && isProgRoute(route) && (!conf || (!explicit && !vu.HasType(v, t))) {
 		out = append(out, cTreeFatal)
 	}
 	if route == "host-arg" && conf && !vu.HasType(v, t) {
 		out = append(out, cHostConv)
 	}
 	return out
+}
+
+// isProgRoute: the crossing happens inside a generated program (`as` or an annotated let).
+func isProgRoute(route string) bool {
+	return route == "as" || route == "let" || route == "letget" || route == "letx"
 }
 
 func hasAny(xs []string, ys []string) bool {
@@ -168,8 +182,10 @@ func routeModes(route string) []bool {
 }
 
 // routeCarries reports whether the route can transport the value at all.
-func routeCarries(route string, v vu.Val) bool {
+func routeCarries(route, stmt string, t vu.Type, v vu.Val) bool {
 	switch route {
+	case "letx":
+		return letxCarries(stmt, t, v)
 	case "as", "let":
 		_, ok := vu.JSONText(v)
 		return ok
@@ -193,7 +209,7 @@ func routeCarries(route string, v vu.Val) bool {
 func enumerate(p payload) []pairSpec {
 	var out []pairSpec
 	for _, v := range vu.Candidates(p.T, p.Width) {
-		if !routeCarries(p.Route, v) {
+		if !routeCarries(p.Route, p.Stmt, p.T, v) {
 			continue
 		}
 		for _, ex := range routeModes(p.Route) {
@@ -293,6 +309,61 @@ func (c12) Cases(tier string, seed uint64) []fw.Case {
 		add(payload{Route: "host-ret", Lib: "vm", T: t, Width: width, Avoid: avoid, Max: hostMax, Seed: r.Next()})
 	}
 
+	// Route letx (letx.go): composite initialisers with ?any parts. A separate generator keeps the
+	// cases above independent of this block.
+	rx := fw.NewRng(seed ^ 0xC12E7)
+	stmts := []string{"let", "global"}
+	letxMax := 4
+	if thorough {
+		letxMax = 12
+	}
+	if enableOptAnyFlow {
+		stmts = letxStmts
+	}
+	for _, t := range types {
+		top := letxTop(t)
+		if top == "" {
+			continue
+		}
+		// quick (and the sampled depth-3 types of thorough): one seed-chosen leaf form per backend,
+		// two different ones per type; thorough: three forms per backend, six different ones per type
+		formsOf := map[string][]string{}
+		nf := len(leafForms)
+		switch {
+		case top == "emptylist":
+			formsOf["vm"], formsOf["tree"] = []string{"get"}, []string{"get"} // `[]` has no leaf
+		case thorough && t.Depth() <= 2:
+			a := rx.Intn(nf)
+			for k := 0; k < 3; k++ {
+				formsOf["vm"] = append(formsOf["vm"], leafForms[(a+2*k)%nf])
+				formsOf["tree"] = append(formsOf["tree"], leafForms[(a+2*k+1)%nf])
+			}
+		default:
+			a := rx.Intn(nf)
+			b := (a + 1 + rx.Intn(nf-1)) % nf
+			formsOf["vm"], formsOf["tree"] = []string{leafForms[a]}, []string{leafForms[b]}
+		}
+		for _, stmt := range stmts {
+			if stmt == "global" {
+				// constant initialisers have one leaf form (`none`); quick: a seed-chosen quarter of the types
+				if thorough || rx.Intn(4) == 0 {
+					for _, lib := range []string{"vm", "tree"} {
+						add(payload{Route: "letx", Lib: lib, T: t, Form: "get", Stmt: stmt, Width: width, Avoid: avoid, Max: letxMax, Seed: rx.Next()})
+					}
+				}
+				continue
+			}
+			if stmt != "let" && t.K != vu.TOpt {
+				continue
+			}
+			for _, lib := range []string{"vm", "tree"} {
+				for _, form := range formsOf[lib] {
+					add(payload{Route: "letx", Lib: lib, T: t, Form: form, Stmt: stmt, Width: width, Avoid: avoid, Max: letxMax, Seed: rx.Next()})
+				}
+			}
+		}
+	}
+
 	// Poisoned workloads: for every open finding a few dozen cases that contain ONLY its construct.
 	type pw struct {
 		construct string
@@ -300,11 +371,11 @@ func (c12) Cases(tier string, seed uint64) []fw.Case {
 		libs      []string
 	}
 	pws := []pw{
-		{cOptWrap, []string{"api", "as", "let", "host-arg"}, []string{"vm", "tree"}},
+		{cOptWrap, []string{"api", "as", "let", "letx", "host-arg"}, []string{"vm", "tree"}},
 		{cTreeAny, []string{"api"}, []string{"tree"}},
-		{cVMPathIdx, []string{"api", "as", "let"}, []string{"vm"}},
-		{cTreePath, []string{"api", "as", "let"}, []string{"tree"}},
-		{cTreeFatal, []string{"as", "let"}, []string{"tree"}},
+		{cVMPathIdx, []string{"api", "as", "let", "letx"}, []string{"vm"}},
+		{cTreePath, []string{"api", "as", "let", "letx"}, []string{"tree"}},
+		{cTreeFatal, []string{"as", "let", "letx"}, []string{"tree"}},
 		{cHostConv, []string{"host-arg"}, []string{"vm"}},
 	}
 	base := vu.TypesUpTo2()
@@ -329,7 +400,7 @@ func (c12) Cases(tier string, seed uint64) []fw.Case {
 					t := base[(k*37)%len(base)]
 					var ps []pairSpec
 					for _, v := range vu.Candidates(t, 2) {
-						if !routeCarries(route, v) {
+						if !routeCarries(route, "", t, v) {
 							continue
 						}
 						for _, ex := range routeModes(route) {
@@ -349,7 +420,11 @@ func (c12) Cases(tier string, seed uint64) []fw.Case {
 					if len(ps) > 6 {
 						ps = sample(ps, t, 6, seed+uint64(k))
 					}
-					add(payload{Route: route, Lib: lib, T: t, Pairs: ps}, w.construct)
+					pp := payload{Route: route, Lib: lib, T: t, Pairs: ps}
+					if route == "letx" {
+						pp.Form = leafForms[k%len(leafForms)]
+					}
+					add(pp, w.construct)
 					made++
 				}
 			}
@@ -372,7 +447,7 @@ func (c12) Run(c fw.Case) (res fw.Result) {
 		for _, q := range pairs {
 			j.api(q)
 		}
-	case "as", "let", "letget":
+	case "as", "let", "letget", "letx":
 		for _, q := range pairs {
 			j.prog(q)
 		}
@@ -385,8 +460,11 @@ func (c12) Run(c fw.Case) (res fw.Result) {
 	if len(pairs) == 0 {
 		res.Evals = 1
 	}
-	res.Hash = fw.HashOf(p.Route, p.Lib, p.T.Src(), pairs)
+	res.Hash = fw.HashOf(p.Route+p.Stmt+p.Form, p.Lib, p.T.Src(), pairs)
 	res.Nontrivial = j.admitted > 0 && j.rejected > 0
+	if p.Route == "letx" && len(pairs) > 0 {
+		j.cov(stmtName(p.Stmt) + "/" + letxTop(p.T) + "/" + p.Form)
+	}
 	for k := range j.cover {
 		res.Cover = append(res.Cover, k)
 	}
@@ -437,10 +515,26 @@ type judge struct {
 }
 
 func (j *judge) fail(class, detail string, q pairSpec, format string, args ...any) {
-	sig := fmt.Sprintf("c12:%s:%s:%s:%s", j.p.Lib, j.p.Route, class, detail)
-	why := fmt.Sprintf("[%s/%s] value %s -> type %s (explicit=%v): ", j.p.Route, j.p.Lib, q.V, j.p.T.Src(), q.Explicit) + fmt.Sprintf(format, args...)
+	route, where := j.p.Route, j.p.Route
+	if route == "letx" {
+		where = fmt.Sprintf("letx %s/%s/%s", stmtName(j.p.Stmt), letxTop(j.p.T), j.p.Form)
+		if (class == "reject-no-path" || class == "reject-wrong-path") && stmtName(j.p.Stmt) == "let" {
+			// the rejecting code is the cast of the annotated let, exactly as on route let: a missing or
+			// wrong path is the same failure (and the same known finding) there and here
+			route = "let"
+		}
+	}
+	sig := fmt.Sprintf("c12:%s:%s:%s:%s", j.p.Lib, route, class, detail)
+	why := fmt.Sprintf("[%s/%s] value %s -> type %s (explicit=%v): ", where, j.p.Lib, q.V, j.p.T.Src(), q.Explicit) + fmt.Sprintf(format, args...)
 	j.fails = append(j.fails, fw.SubViolation{Why: why, Sig: sig,
 		Detail: map[string]any{"value": q.V, "type": j.p.T, "explicit": q.Explicit, "offences": vu.Offences(q.V, j.p.T, q.Explicit)}})
+}
+
+func stmtName(s string) string {
+	if s == "" {
+		return "let"
+	}
+	return s
 }
 
 func (j *judge) cov(k string) { j.cover[j.p.Lib+":"+j.p.Route+":"+k]++ }
